@@ -148,8 +148,11 @@ def ref_descriptors(libname, inp, scheme_path=None, per_atom=False):
             k = len(set(frozenset(m) for m in mol.GetSubstructMatches(patt, useChirality=chir)))
             if k:
                 desc[name] += k
+    # groups and correction descriptors share one name space (the keys of the data library): a name is counted once per group atom of that
+    # name plus once per match of the correction descriptor of that name
     out = remap(groups, s['remaps'])
-    out.update(remap(desc, s['remaps']))
+    for k_, v_ in remap(desc, s['remaps']).items():
+        out[k_] = out.get(k_, 0) + v_
     if per_atom:
         return out, names
     return out
@@ -206,6 +209,7 @@ CURATED_GAS = ['c1ccccc1', 'Cc1ccccc1', 'C1CCCCC1', 'C1=CCCCC1', 'CC(=O)O', 'CC(
                'CC(C)C(C)CC(C)(C)C', 'CC(C)C(C)C', 'CC(C)(C)C(C)(C)C', 'C/C=C\\C(C)(C)C', 'CC(C)(C)/C=C\\C(C)(C)C', 'C1CCOCC1', 'C1=CC=CCC1', 'C1CC=CC=C1']
 CURATED_SURF = ['C([{M}])C', '[{M}]C', 'C([{M}])([{M}])C', 'O([{M}])C', 'C([{M}])C[{M}]', 'C(=O)([{M}])O', '[{M}]C([{M}])C([{M}])([{M}])C=O', '[{M}]C([{M}])C([{M}])([{M}])C',
                 'C~[{M}]', 'O=C(=O)~[{M}]', 'CO~[{M}]', 'O~[{M}]',       # weak ('~', unspecified) bonds to the surface
+                '[C]$[C]', '[C]$[C].CC', '[C]$[C].CC.CCC',        # dicarbon: centre pattern 'CC', the name of the C-C descriptor in five schemes
                 '[H][H]', '[H]', '[H][{M}]', 'CC', 'CCC', 'CCO', 'C([{M}])O', 'OC([{M}])C', '[{M}]O', 'C([{M}])([{M}])([{M}])C', 'C=O', 'CC=O', 'C([{M}])=O', '[{M}]OC', 'C(O)([{M}])C[{M}]', 'OCCO']
 
 
